@@ -78,29 +78,47 @@ impl NodeStamp {
         *self
     }
 }
-impl From<NodeId> for NonZeroUsize {
-    #[verifier::external_body]
-    fn from(value: NodeId) -> NonZeroUsize {
+pub fn from_NodeId_for_NonZeroUsize(value: NodeId) -> (r: NonZeroUsize)
+        // @props C11
+        ensures
+            // @ob C11.nonzero_from_id_is_position C11
+            r@ == value.idx() + 1,
+    {
         value.index1
     }
-}
-impl From<NodeId> for usize {
-    #[verifier::external_body]
-    fn from(value: NodeId) -> usize {
+pub fn from_NodeId_for_usize(value: NodeId) -> (r: usize)
+        // @props C11
+        ensures
+            // @ob C11.usize_from_id_is_position C11
+            r == value.idx() + 1,
+    {
         value.index1.get()
     }
-}
 impl NodeId {
-    #[verifier::external_body]
-    pub fn index0(self) -> usize {
+    pub fn index0(self) -> (r: usize)
+        // @props C11
+        ensures
+            r == self.idx(),
+    {
         self.index1.get() - 1
     }
-    #[verifier::external_body]
-    pub fn from_non_zero_usize(index1: NonZeroUsize, stamp: NodeStamp) -> Self {
+    pub fn from_non_zero_usize(index1: NonZeroUsize, stamp: NodeStamp) -> (r: Self)
+        // @props C11
+        ensures
+            r.index1 == index1,
+            r.stamp == stamp,
+            r.idx() == index1@ - 1,
+    {
         NodeId { index1, stamp }
     }
-    #[verifier::external_body]
-    pub fn is_removed<T>(self, arena: &Arena<T>) -> bool {
+    pub fn is_removed<T>(self, arena: &Arena<T>) -> (r: bool)
+        // @props C06
+        requires
+            arena.has(self),
+        ensures
+            // @ob C06.is_removed_compares_generation C06
+            r == (arena.at(self).stamp != self.stamp),
+    {
         arena[self].stamp != self.stamp
     }
     #[verifier::external_body]
@@ -382,24 +400,44 @@ pub struct Node<T> {
     pub data: NodeData<T>,
 }
 impl<T> Node<T> {
-    #[verifier::external_body]
-    pub fn get(&self) -> &T {
+    pub fn get(&self) -> (r: &T)
+        // @props C08 C05
+        requires
+            self.data is Data,
+        ensures
+            // @ob C08.get_returns_stored_payload C08
+            self.data == NodeData::Data(*r),
+    {
         if let NodeData::Data(ref data) = self.data {
             data
         } else {
             unreachable!("Try to access a freed node")
         }
     }
-    #[verifier::external_body]
-    pub fn get_mut(&mut self) -> &mut T {
+    pub fn get_mut(&mut self) -> (r: &mut T)
+        // @props C08 C05
+        requires
+            old(self).data is Data,
+        ensures
+            // @ob C08.get_mut_addresses_payload C08
+            old(self).data == NodeData::Data(*r),
+            // @ob C08.get_mut_writes_only_payload C08 C01
+            *final(self) == (Node { data: NodeData::Data(*final(r)), ..*old(self) }),
+    {
         if let NodeData::Data(ref mut data) = self.data {
             data
         } else {
             unreachable!("Try to access a freed node")
         }
     }
-    #[verifier::external_body]
-    pub fn new(data: T) -> Self {
+    pub fn new(data: T) -> (r: Self)
+        // @props C07 C12
+        ensures
+            // @ob C12.new_node_has_no_links C12 C07
+            no_links(r),
+            r.stamp.0 == 0,
+            r.data == NodeData::Data(data),
+    {
         Self {
             parent: None,
             previous_sibling: None,
@@ -410,8 +448,20 @@ impl<T> Node<T> {
             data: NodeData::Data(data),
         }
     }
-    #[verifier::external_body]
-    pub fn reuse(&mut self, data: T) {
+    pub fn reuse(&mut self, data: T)
+        // @props C06 C07 C12
+        requires
+            !(old(self).data is Data),
+            old(self).stamp.can_reuse(),
+        ensures
+            // @ob C12.recycled_node_has_no_links C12 C07
+            no_links(*final(self)),
+            // @ob C06.recycled_stamp_is_fresh C06
+            final(self).stamp.0 == -old(self).stamp.0,
+            !final(self).stamp.removed(),
+            final(self).stamp.hw() == old(self).stamp.hw() + 1,
+            final(self).data == NodeData::Data(data),
+    {
         debug_assert!(matches!(self.data, NodeData::NextFree(_)));
         debug_assert!(self.stamp.is_removed());
         self.stamp.reuse();
@@ -422,32 +472,52 @@ impl<T> Node<T> {
         self.last_child = None;
         self.data = NodeData::Data(data);
     }
-    #[verifier::external_body]
-    pub fn parent(&self) -> Option<NodeId> {
+    pub fn parent(&self) -> (r: Option<NodeId>)
+        // @props C11
+        ensures
+            r == self.parent,
+    {
         self.parent
     }
-    #[verifier::external_body]
-    pub fn first_child(&self) -> Option<NodeId> {
+    pub fn first_child(&self) -> (r: Option<NodeId>)
+        // @props C11
+        ensures
+            r == self.first_child,
+    {
         self.first_child
     }
-    #[verifier::external_body]
-    pub fn last_child(&self) -> Option<NodeId> {
+    pub fn last_child(&self) -> (r: Option<NodeId>)
+        // @props C11
+        ensures
+            r == self.last_child,
+    {
         self.last_child
     }
-    #[verifier::external_body]
-    pub fn previous_sibling(&self) -> Option<NodeId> {
+    pub fn previous_sibling(&self) -> (r: Option<NodeId>)
+        // @props C11
+        ensures
+            r == self.previous_sibling,
+    {
         self.previous_sibling
     }
-    #[verifier::external_body]
-    pub fn next_sibling(&self) -> Option<NodeId> {
+    pub fn next_sibling(&self) -> (r: Option<NodeId>)
+        // @props C11
+        ensures
+            r == self.next_sibling,
+    {
         self.next_sibling
     }
-    #[verifier::external_body]
-    pub fn is_removed(&self) -> bool {
+    pub fn is_removed(&self) -> (r: bool)
+        // @props C11 C12
+        ensures
+            r == self.stamp.removed(),
+    {
         self.stamp.is_removed()
     }
-    #[verifier::external_body]
-    pub fn is_detached(&self) -> bool {
+    pub fn is_detached(&self) -> (r: bool)
+        ensures
+            r == (self.parent is None && self.previous_sibling is None && self.next_sibling is None),
+    {
         self.parent.is_none() && self.previous_sibling.is_none() && self.next_sibling.is_none()
     }
 }
@@ -458,12 +528,30 @@ pub struct Arena<T> {
     pub last_free_slot: Option<usize>,
 }
 impl<T> Arena<T> {
-    #[verifier::external_body]
-    pub fn new() -> Arena<T> {
+    pub fn new() -> (r: Arena<T>)
+        // @props C13 C01 C07
+        ensures
+            // @ob C13.new_is_empty C13
+            r.nodes@.len() == 0 && r.first_free_slot is None && r.last_free_slot is None,
+            // @ob C01.wf@new C01 C02 C12
+            r.wf(),
+    {
+        proof {
+            lemma_empty_wf::<T>();
+        }
         Self::default()
     }
-    #[verifier::external_body]
-    pub fn with_capacity(n: usize) -> Self {
+    pub fn with_capacity(n: usize) -> (r: Self)
+        // @props C13 C01 C07
+        ensures
+            // @ob C13.with_capacity_is_empty C13
+            r.nodes@.len() == 0 && r.first_free_slot is None && r.last_free_slot is None,
+            // @ob C01.wf@with_capacity C01 C02 C12
+            r.wf(),
+    {
+        proof {
+            lemma_empty_wf::<T>();
+        }
         Self {
             nodes: Vec::with_capacity(n),
             first_free_slot: None,
@@ -474,8 +562,13 @@ impl<T> Arena<T> {
     pub fn capacity(&self) -> usize {
         self.nodes.capacity()
     }
-    #[verifier::external_body]
-    pub fn reserve(&mut self, additional: usize) {
+    pub fn reserve(&mut self, additional: usize)
+        // @props C13 C01
+        ensures
+            // @ob C13.reserve_changes_nothing_observable C13 C08
+            final(self).nodes@ == old(self).nodes@ && final(self).first_free_slot == old(self).first_free_slot
+                && final(self).last_free_slot == old(self).last_free_slot,
+    {
         self.nodes.reserve(additional);
     }
     #[verifier::external_body]
@@ -492,8 +585,14 @@ impl<T> Arena<T> {
             self.nodes[node_index].stamp,
         ))
     }
-    #[verifier::external_body]
-    pub fn get_node_id_at(&self, index: NonZeroUsize) -> Option<NodeId> {
+    pub fn get_node_id_at(&self, index: NonZeroUsize) -> (r: Option<NodeId>)
+        // @props C11
+        ensures
+            // @ob C11.get_node_id_at_some_iff_live_position C11
+            r is Some <==> (index@ - 1 < self.nodes@.len() && !self.nodes@[index@ - 1].stamp.removed()),
+            // @ob C11.get_node_id_at_returns_the_id C11
+            r is Some ==> r->0.index1 == index && r->0.stamp == self.nodes@[index@ - 1].stamp && self.live(r->0),
+    {
         let index0 = index.get() - 1;
         match match self.nodes.get(index0) {
             Some(__vx_v1) => {
@@ -510,9 +609,47 @@ impl<T> Arena<T> {
             None => None,
         }
     }
-    #[verifier::external_body]
-    pub fn new_node(&mut self, data: T) -> NodeId {
+    pub fn new_node(&mut self, data: T) -> (r: NodeId)
+        // @props C07 C06 C08 C01 C12 C13
+        requires
+            old(self).wf(),
+        ensures
+            // @ob C01.wf@new_node C01 C02 C12
+            final(self).wf(),
+            // @ob C07.new_node_returns_live_id C07 C08
+            final(self).live(r) && final(self).at(r).data == NodeData::Data(data),
+            // @ob C12.new_node_starts_unlinked C12 C07
+            no_links(final(self).at(r)),
+            // @ob C07.new_node_slot_held_no_live_node C07
+            r.idx() < old(self).nodes@.len() ==> old(self).nodes@[r.idx()].stamp.can_reuse(),
+            // @ob C06.new_node_id_is_fresh C06
+            r.idx() < old(self).nodes@.len() ==> r.stamp.0 as int == old(self).nodes@[r.idx()].stamp.hw() + 1,
+            r.idx() >= old(self).nodes@.len() ==> r.stamp.0 == 0,
+            // @ob C07.new_node_recycles_before_growing C07 C13
+            forall|fl: Seq<int>| #[trigger]
+                free_list(old(self).nodes@, old(self).first_free_slot, old(self).last_free_slot, fl) ==> (if fl.len() > 0 {
+                    r.idx() == fl[0] && final(self).nodes@.len() == old(self).nodes@.len() && free_list(
+                        final(self).nodes@,
+                        final(self).first_free_slot,
+                        final(self).last_free_slot,
+                        fl.drop_first(),
+                    )
+                } else {
+                    r.idx() == old(self).nodes@.len() && final(self).nodes@.len() == old(self).nodes@.len() + 1
+                        && free_list(final(self).nodes@, final(self).first_free_slot, final(self).last_free_slot, fl)
+                }),
+            // @ob C08.new_node_leaves_every_other_slot_untouched C08 C07 C01
+            forall|i: int| 0 <= i < old(self).nodes@.len() && i != r.idx() ==> final(self).nodes@[i] == old(self).nodes@[i],
+            final(self).nodes@.len() >= old(self).nodes@.len(),
+    {
+        proof {
+            axiom_vec_node_len(&self.nodes);
+        }
+        let ghost fl0 = choose|fl: Seq<int>| free_list(old(self).nodes@, old(self).first_free_slot, old(self).last_free_slot, fl);
         let (index, stamp) = if let Some(index) = self.pop_front_free_node() {
+            proof {
+                lemma_fl_popped_slot(self.nodes@, self.first_free_slot, self.last_free_slot, fl0.drop_first(), fl0[0]);
+            }
             let node = &mut self.nodes[index];
             node.reuse(data);
             (index, node.stamp)
@@ -523,20 +660,77 @@ impl<T> Arena<T> {
             self.nodes.push(node);
             (index, stamp)
         };
+        proof {
+            axiom_vec_node_len(&self.nodes);
+            if fl0.len() > 0 {
+                assert(index == fl0[0]);
+                assert(self.nodes@.len() == old(self).nodes@.len());
+                assert(!self.nodes@[index as int].stamp.removed());
+                assert(forall|i: int| 0 <= i < self.nodes@.len() && i != index ==> self.nodes@[i] == old(self).nodes@[i]);
+            } else {
+                assert(index == old(self).nodes@.len());
+            }
+            lemma_alloc_links(old(self).nodes@, self.nodes@, index as int);
+            assert forall|fl: Seq<int>| #[trigger]
+                free_list(old(self).nodes@, old(self).first_free_slot, old(self).last_free_slot, fl) implies (if fl.len() > 0 {
+                index == fl[0] && self.nodes@.len() == old(self).nodes@.len() && free_list(
+                    self.nodes@,
+                    self.first_free_slot,
+                    self.last_free_slot,
+                    fl.drop_first(),
+                )
+            } else {
+                index == old(self).nodes@.len() && self.nodes@.len() == old(self).nodes@.len() + 1 && free_list(
+                    self.nodes@,
+                    self.first_free_slot,
+                    self.last_free_slot,
+                    fl,
+                )
+            }) by {
+                lemma_fl_ends(old(self).nodes@, old(self).first_free_slot, old(self).last_free_slot, fl);
+                lemma_fl_ends(old(self).nodes@, old(self).first_free_slot, old(self).last_free_slot, fl0);
+                if fl.len() > 0 {
+                    lemma_fl_reuse(old(self).nodes@, self.nodes@, self.first_free_slot, self.last_free_slot, fl.drop_first(), fl[0]);
+                } else {
+                    lemma_fl_grow(old(self).nodes@, self.nodes@, self.first_free_slot, self.last_free_slot, fl);
+                }
+            }
+            assert(self.fl_ok()) by {
+                if fl0.len() > 0 {
+                    assert(free_list(self.nodes@, self.first_free_slot, self.last_free_slot, fl0.drop_first()));
+                } else {
+                    assert(free_list(self.nodes@, self.first_free_slot, self.last_free_slot, fl0));
+                }
+            }
+        }
         let next_index1 =
             NonZeroUsize::new(index.wrapping_add(1)).expect("Too many nodes in the arena");
         NodeId::from_non_zero_usize(next_index1, stamp)
     }
-    #[verifier::external_body]
-    pub fn count(&self) -> usize {
+    pub fn count(&self) -> (r: usize)
+        // @props C11 C07
+        ensures
+            // @ob C11.count_is_number_of_slots C11
+            r == self.nodes@.len(),
+    {
         self.nodes.len()
     }
-    #[verifier::external_body]
-    pub fn is_empty(&self) -> bool {
+    pub fn is_empty(&self) -> (r: bool)
+        // @props C11
+        ensures
+            // @ob C11.is_empty_iff_count_zero C11
+            r == (self.nodes@.len() == 0),
+    {
         self.count() == 0
     }
-    #[verifier::external_body]
-    pub fn get(&self, id: NodeId) -> Option<&Node<T>> {
+    pub fn get(&self, id: NodeId) -> (r: Option<&Node<T>>)
+        // @props C11 C08
+        ensures
+            // @ob C11.get_none_iff_out_of_range C11
+            r is Some <==> self.has(id),
+            // @ob C11.get_addresses_the_slot_of_the_id C11 C08
+            r is Some ==> *r->0 == self.at(id),
+    {
         self.nodes.get(id.index0())
     }
     #[verifier::external_body]
@@ -551,18 +745,70 @@ impl<T> Arena<T> {
     pub fn iter_mut(&mut self) -> slice::IterMut<Node<T>> {
         self.nodes.iter_mut()
     }
-    #[verifier::external_body]
-    pub fn clear(&mut self) {
+    pub fn clear(&mut self)
+        // @props C13 C01
+        ensures
+            // @ob C13.clear_equals_new C13
+            final(self).nodes@.len() == 0 && final(self).first_free_slot is None && final(self).last_free_slot is None,
+            // @ob C01.wf@clear C01 C02 C12
+            final(self).wf(),
+    {
         self.nodes.clear();
         self.first_free_slot = None;
         self.last_free_slot = None;
+        proof {
+            lemma_empty_wf::<T>();
+        }
     }
-    #[verifier::external_body]
-    pub fn as_slice(&self) -> &[Node<T>] {
+    pub fn as_slice(&self) -> (r: &[Node<T>])
+        // @props C11
+        ensures
+            // @ob C11.as_slice_is_the_slot_sequence C11
+            r@ == self.nodes@,
+    {
         self.nodes.as_slice()
     }
-    #[verifier::external_body]
-    pub fn free_node(&mut self, id: NodeId) {
+    pub fn free_node(&mut self, id: NodeId)
+        // @props C07 C06 C08 C12 C04
+        requires
+            old(self).has(id),
+            !old(self).at(id).stamp.removed(),
+            old(self).fl_ok(),
+        ensures
+            final(self).nodes@.len() == old(self).nodes@.len(),
+            // @ob C06.free_node_marks_removed C06 C12
+            final(self).at(id).stamp.0 == -old(self).at(id).stamp.0 - 1,
+            // @ob C08.free_node_touches_only_the_freed_payload C08 C04
+            forall|i: int|
+                0 <= i < old(self).nodes@.len() ==> {
+                    let o = old(self).nodes@[i];
+                    let n = #[trigger] final(self).nodes@[i];
+                    &&& n.parent == o.parent && n.previous_sibling == o.previous_sibling && n.next_sibling == o.next_sibling
+                        && n.first_child == o.first_child && n.last_child == o.last_child
+                    &&& i != id.idx() ==> n.stamp == o.stamp
+                    &&& (i != id.idx() && !o.stamp.removed()) ==> n.data == o.data
+                    &&& (i != id.idx() && n.data != o.data) ==> (old(self).last_free_slot == Some(i as usize)
+                        && final(self).at(id).stamp.can_reuse())
+                },
+            !(final(self).at(id).data is Data),
+            // @ob C07.free_node_makes_slot_available_exactly_once C07
+            forall|fl: Seq<int>| #[trigger]
+                free_list(old(self).nodes@, old(self).first_free_slot, old(self).last_free_slot, fl) ==> free_list(
+                    final(self).nodes@,
+                    final(self).first_free_slot,
+                    final(self).last_free_slot,
+                    if final(self).at(id).stamp.can_reuse() {
+                        fl.push(id.idx())
+                    } else {
+                        fl
+                    },
+                ),
+    {
+        proof {
+            axiom_vec_node_len(&self.nodes);
+            let fl0 = choose|fl: Seq<int>| free_list(self.nodes@, self.first_free_slot, self.last_free_slot, fl);
+            lemma_fl_ends(self.nodes@, self.first_free_slot, self.last_free_slot, fl0);
+        }
         let node = &mut self[id];
         node.data = NodeData::NextFree(None);
         node.stamp.as_removed();
@@ -579,9 +825,62 @@ impl<T> Arena<T> {
                 self.last_free_slot = Some(id.index0());
             }
         }
+        proof {
+            assert forall|fl: Seq<int>| #[trigger]
+                free_list(old(self).nodes@, old(self).first_free_slot, old(self).last_free_slot, fl) implies free_list(
+                self.nodes@,
+                self.first_free_slot,
+                self.last_free_slot,
+                if self.at(id).stamp.can_reuse() {
+                    fl.push(id.idx())
+                } else {
+                    fl
+                },
+            ) by {
+                lemma_fl_ends(old(self).nodes@, old(self).first_free_slot, old(self).last_free_slot, fl);
+                if self.at(id).stamp.can_reuse() {
+                    lemma_fl_push(
+                        old(self).nodes@,
+                        self.nodes@,
+                        old(self).first_free_slot,
+                        old(self).last_free_slot,
+                        fl,
+                        id.idx(),
+                        self.first_free_slot,
+                        self.last_free_slot,
+                    );
+                } else {
+                    lemma_fl_retire(old(self).nodes@, self.nodes@, old(self).first_free_slot, old(self).last_free_slot, fl, id.idx());
+                }
+            }
+        }
     }
-    #[verifier::external_body]
-    pub fn pop_front_free_node(&mut self) -> Option<usize> {
+    pub fn pop_front_free_node(&mut self) -> (first: Option<usize>)
+        // @props C07
+        requires
+            old(self).fl_ok(),
+        ensures
+            final(self).nodes@ == old(self).nodes@,
+            // @ob C07.pop_front_hands_out_the_oldest_free_slot C07
+            forall|fl: Seq<int>| #[trigger]
+                free_list(old(self).nodes@, old(self).first_free_slot, old(self).last_free_slot, fl) ==> (if fl.len() > 0 {
+                    first == Some(fl[0] as usize) && free_list_popped(
+                        final(self).nodes@,
+                        final(self).first_free_slot,
+                        final(self).last_free_slot,
+                        fl.drop_first(),
+                        fl[0],
+                    )
+                } else {
+                    first is None && final(self).first_free_slot == old(self).first_free_slot && final(self).last_free_slot
+                        == old(self).last_free_slot
+                }),
+    {
+        proof {
+            axiom_vec_node_len(&self.nodes);
+            let fl0 = choose|fl: Seq<int>| free_list(self.nodes@, self.first_free_slot, self.last_free_slot, fl);
+            lemma_fl_ends(self.nodes@, self.first_free_slot, self.last_free_slot, fl0);
+        }
         let first = self.first_free_slot.take();
         if let Some(index) = first {
             if let NodeData::NextFree(next_free) = self.nodes[index].data {
@@ -593,12 +892,43 @@ impl<T> Arena<T> {
                 self.last_free_slot = None;
             }
         }
+        proof {
+            assert forall|fl: Seq<int>| #[trigger]
+                free_list(old(self).nodes@, old(self).first_free_slot, old(self).last_free_slot, fl) implies (if fl.len() > 0 {
+                first == Some(fl[0] as usize) && free_list_popped(
+                    self.nodes@,
+                    self.first_free_slot,
+                    self.last_free_slot,
+                    fl.drop_first(),
+                    fl[0],
+                )
+            } else {
+                first is None && self.first_free_slot == old(self).first_free_slot && self.last_free_slot == old(
+                    self,
+                ).last_free_slot
+            }) by {
+                lemma_fl_ends(old(self).nodes@, old(self).first_free_slot, old(self).last_free_slot, fl);
+                if fl.len() > 0 {
+                    lemma_fl_pop(
+                        self.nodes@,
+                        old(self).first_free_slot,
+                        old(self).last_free_slot,
+                        fl,
+                        self.first_free_slot,
+                        self.last_free_slot,
+                    );
+                }
+            }
+        }
         first
     }
 }
 impl<T> Default for Arena<T> {
-    #[verifier::external_body]
-    fn default() -> Self {
+    fn default() -> (r: Self)
+        // @props C13
+        ensures
+            r.nodes@.len() == 0 && r.first_free_slot is None && r.last_free_slot is None,
+    {
         Self {
             nodes: Vec::new(),
             first_free_slot: None,
@@ -608,14 +938,26 @@ impl<T> Default for Arena<T> {
 }
 impl<T> Index<NodeId> for Arena<T> {
     type Output = Node<T>;
-    #[verifier::external_body]
-    fn index(&self, node: NodeId) -> &Node<T> {
+    fn index(&self, node: NodeId) -> (r: &Node<T>)
+        // @props C11 C08
+        ensures
+            // @ob C11.index_addresses_the_slot_of_the_id C11 C08
+            *r == self.at(node),
+    {
         &self.nodes[node.index0()]
     }
 }
 impl<T> IndexMut<NodeId> for Arena<T> {
-    #[verifier::external_body]
-    fn index_mut(&mut self, node: NodeId) -> &mut Node<T> {
+    fn index_mut(&mut self, node: NodeId) -> (r: &mut Node<T>)
+        // @props C11 C08
+        ensures
+            // @ob C11.index_mut_addresses_the_slot_of_the_id C11 C08
+            *r == old(self).at(node),
+            // @ob C08.index_mut_writes_only_the_addressed_slot C08 C01
+            final(self).nodes@ == old(self).nodes@.update(node.idx(), *final(r)),
+            final(self).first_free_slot == old(self).first_free_slot,
+            final(self).last_free_slot == old(self).last_free_slot,
+    {
         &mut self.nodes[node.index0()]
     }
 }
